@@ -14,7 +14,7 @@ Field specifications are plain dicts (they travel inside the Hypothesis-drawn ca
 """
 import ctypes
 from ctypes import c_void_p, c_size_t, c_int, c_long, byref
-from .ffi import lib, Buf, sizeof, const, shim
+from .ffi import Buf, sizeof, shim
 from .ref import der as D
 from .ref import sm2 as M
 from .ref import sigder as SD
@@ -279,7 +279,10 @@ def ext_value(e, ctxkeys=None):
     if k in ("cdp", "fcrl_uri"):
         # the supplied ldap URI belongs into the extension as a second DistributionPoint / GeneralName; the reference
         # states only what every reading agrees on (the http URI), the ldap URI is judged separately
-        return EXT_OID["cdp" if k == "cdp" else "fcrl"], D.enc_seq(ref_dist_point(e["http"].encode("ascii")))
+        dps = [ref_dist_point(e["http"].encode("ascii"))]
+        if e["ldap"]:
+            dps.append(ref_dist_point(e["ldap"].encode("ascii")))      # one DistributionPoint per supplied URI
+        return EXT_OID["cdp" if k == "cdp" else "fcrl"], D.enc_seq(*dps)
     if k == "iap":
         return EXT_OID["iap"], D.enc_int(e["n"])
     if k == "fcrl":
